@@ -59,6 +59,11 @@ func OpenDir(baseDir string) (*Bundle, error) {
 		registryPackageVersionDeprecations: make(map[regaddr.ModulePackage]map[versions.Version]*RegistryVersionDeprecation),
 	}
 
+	// Only a regular file (or a link to one) is read: opening a fifo would
+	// block, a device may never end.
+	if info, err := os.Stat(filepath.Join(rootDir, manifestFilename)); err == nil && !info.Mode().IsRegular() {
+		return nil, fmt.Errorf("cannot read manifest: not a regular file")
+	}
 	manifestSrc, err := os.ReadFile(filepath.Join(rootDir, manifestFilename))
 	if err != nil {
 		return nil, fmt.Errorf("cannot read manifest: %w", err)
